@@ -48,6 +48,8 @@ pub struct WalletH {
 	/// name of the wallet that first owned this seed
 	pub seed: String,
 	pub phrase: String,
+	/// label of the active account as last set through `set_active` (per process in the real wallet)
+	pub active: String,
 }
 
 #[derive(Clone, Default)]
@@ -253,6 +255,7 @@ impl World {
 				password: "".into(),
 				seed: seed_name,
 				phrase: got_phrase,
+				active: "default".into(),
 			},
 		);
 	}
@@ -275,6 +278,7 @@ impl World {
 				let h = self.wallets.get_mut(name).unwrap();
 				h.inst = Some(Arc::new(Mutex::new(wallet)));
 				h.mask = mask;
+				h.active = "default".into();
 				Outcome::Ok(())
 			}
 			Outcome::Err(e) => Outcome::Err(e),
@@ -944,6 +948,11 @@ impl World {
 	}
 	pub fn set_active(&mut self, w: &str, label: &str) -> Value {
 		let r = self.with(w, |wi, _| owner::set_active_account(wi, label));
+		if r.res() == "ok" {
+			if let Some(h) = self.wallets.get_mut(w) {
+				h.active = label.to_string();
+			}
+		}
 		json!({"ev": "set_active", "w": w, "label": label, "res": r.res()})
 	}
 
@@ -1075,6 +1084,7 @@ pub struct Regs {
 pub struct Snapshot {
 	pub dir: String,
 	pub regs: Regs,
+	pub active: BTreeMap<String, String>,
 }
 
 fn copy_dir(from: &std::path::Path, to: &std::path::Path) -> std::io::Result<()> {
@@ -1129,18 +1139,33 @@ impl World {
 			})
 			.collect()
 	}
+	/// re-open every wallet and select the account that was active before (closing the wallets
+	/// to copy their directories is the harness' doing, not a restart of the wallet under test)
+	pub fn reopen_all_keep(&mut self, active: &BTreeMap<String, String>) {
+		self.reopen_all();
+		for (n, a) in active.iter() {
+			if a != "default" && self.wallets.get(n).map(|h| h.inst.is_some()).unwrap_or(false) {
+				let _ = self.set_active(n, a);
+			}
+		}
+	}
+	pub fn actives(&self) -> BTreeMap<String, String> {
+		self.wallets.iter().map(|(n, h)| (n.clone(), h.active.clone())).collect()
+	}
 	/// copy of every wallet directory (wallets closed while copying) + registries
 	pub fn snapshot(&mut self, tag: &str) -> Snapshot {
+		let act = self.actives();
 		self.close_wallets();
 		let sdir = format!("{}/snap_{}", self.dir, tag);
 		let _ = std::fs::remove_dir_all(&sdir);
 		for (n, h) in self.wallets.iter() {
 			copy_dir(std::path::Path::new(&h.dir), &std::path::Path::new(&sdir).join(n)).unwrap();
 		}
-		self.reopen_all();
+		self.reopen_all_keep(&act);
 		Snapshot {
 			dir: sdir,
 			regs: self.regs(),
+			active: act,
 		}
 	}
 	pub fn restore(&mut self, snap: &Snapshot) {
@@ -1150,7 +1175,8 @@ impl World {
 			copy_dir(&std::path::Path::new(&snap.dir).join(n), std::path::Path::new(&h.dir)).unwrap();
 		}
 		self.set_regs(&snap.regs);
-		self.reopen_all();
+		let act = snap.active.clone();
+		self.reopen_all_keep(&act);
 	}
 }
 
